@@ -10,6 +10,40 @@ of threads at the granularity of single back-end calls) and every program of ope
 namespace AcraModel.Props.C17
 open AcraModel AcraModel.KeystoreSec.Conc
 
+/-! ## facts the model needs from the source (regenerated on every run) -/
+open Generated.KeystoreSec in
+/-- The state-transition table the model's `prepare` consults is the one of
+`api.KeyStateTransitionValid`: destroyed is terminal, a key can be destroyed only from pre-active,
+deactivated or compromised. -/
+theorem fact_transitions :
+    transitions = [(1, [2, 4, 5, 6]), (2, [3, 4, 5]), (3, [2, 4, 5]), (4, [5, 6]), (5, [6])] ∧
+    asnKeyPreActive = 1 ∧ asnKeyDestroyed = 6 ∧ asnNoKey = -1 ∧ firstSeqnum = 1 := by decide
+
+open Generated.KeystoreSec in
+/-- The write cycle is the program of back-end calls the model runs: `Lock` first and `Unlock`
+deferred (always executed), then pull (`Get` → verify → load), apply the pending transactions, push
+(sign → `Put <ring>.keyring.new` → `Rename` onto `<ring>.keyring`), commit. The read cycle is
+`RLock`, deferred `RUnlock`, pull. Every mutating ring method pushes its transactions, syncs and pops
+them again on error. -/
+theorem fact_write_cycle :
+    writeKeyRingCalls = ["s.fs.Lock", "defer:s.fs.Unlock", "s.pullRingUpdates", "ring.applyPendingTX", "s.pushNewRingState", "ring.commitTX"] ∧
+    readKeyRingCalls = ["s.fs.RLock", "defer:s.fs.RUnlock", "s.pullRingUpdates"] ∧
+    pullRingUpdatesCalls = ["s.fetchASNring", "s.verifyKeyRing", "ring.loadASN1"] ∧
+    fetchASNringCalls = ["s.fs.Get"] ∧
+    pushNewRingStateCalls = ["s.signKeyRing", "s.pushASNring"] ∧
+    pushASNringCalls = ["s.fs.Put", "s.fs.Rename"] ∧ pushASNringPutPath = ["newPath"] ∧
+    keyringSuffix = ".keyring" ∧ newSuffix = ".new" ∧
+    addKeyCalls = ["r.pushTX", "r.store.syncKeyRing", "r.popTX"] ∧
+    setCurrentCalls = ["r.pushTX", "r.store.syncKeyRing", "r.popTX"] ∧
+    changeKeyStateCalls = ["r.pushTX", "r.store.syncKeyRing", "r.popTX"] ∧
+    destroyKeyCalls = ["r.pushTX", "r.pushTX", "r.store.syncKeyRing", "r.popTX", "r.popTX"] := by decide
+
+/-- the model's own constants agree with the regenerated ones -/
+theorem fact_model_constants :
+    noKey = Generated.KeystoreSec.asnNoKey ∧ (stPreActive : Int) = Generated.KeystoreSec.asnKeyPreActive ∧
+    (stDestroyed : Int) = Generated.KeystoreSec.asnKeyDestroyed ∧
+    (⟨[], noKey⟩ : Ring).nextSeq = Generated.KeystoreSec.firstSeqnum := by decide
+
 /-- an initial state: nobody holds a lock, no temporary file, nothing committed yet, every handle idle
 with an arbitrary (possibly stale) snapshot and an arbitrary program -/
 structure Initial (s : St) : Prop where
